@@ -808,6 +808,8 @@ where
     K: Eq + PartialEq + Hash + Clone,
     C: LockableMapConfig + Clone,
 {
+    #[cfg(feature = "verif_hooks")]
+    _section: crate::verif::GlobalSection,
     entries: std::sync::MutexGuard<'a, C::MapImpl<K, V>>,
     _k: PhantomData<K>,
     _v: PhantomData<V>,
@@ -821,10 +823,14 @@ where
 {
     #[track_caller]
     fn new(entries: std::sync::MutexGuard<'a, C::MapImpl<K, V>>) -> Self {
+        #[cfg(feature = "verif_hooks")]
+        let _section = crate::verif::GlobalSection::enter();
         #[cfg(any(test, feature = "slow_assertions"))]
         Self::assert_invariant(&entries);
 
         Self {
+            #[cfg(feature = "verif_hooks")]
+            _section,
             entries,
             _k: PhantomData,
             _v: PhantomData,
